@@ -138,7 +138,9 @@ func (x *Exec) modelCLI(a *activation, b *ssa.BasicBlock, i int, in *ssa.Call, c
 		{
 			f2, h2 := fr.clone(), h.clone()
 			dst := args[1]
-			if dst.k == 'I' && dst.obj != 0 {
+			if dst.k == 'I' && dst.obj != 0 && dst.what == "boxed-addr" {
+				dst = AV{k: 'A', obj: dst.obj, idx: dst.idx} // the address of a field boxed into the interface{} parameter
+			} else if dst.k == 'I' && dst.obj != 0 {
 				dst = AV{k: 'P', tri: 2, obj: dst.obj} // the pointer boxed into the interface{} parameter
 			}
 			x.store(dst, AV{k: 'I', atoms: UJSON, tag: "json(" + tagOf(0) + ")"}, h2, in)
@@ -197,7 +199,12 @@ func (x *Exec) modelCLI(a *activation, b *ssa.BasicBlock, i int, in *ssa.Call, c
 		a.cont(b, i+1, fr, h, p2)
 		return true, true
 	case "os.Exit":
-		a.k([]AV{args[0]}, h, p.note("exit"), fr)
+		// the program ends here, wherever the call is
+		if x.onExit != nil {
+			x.onExit(args[0], h, p)
+		} else {
+			a.k([]AV{args[0]}, h, p.note("exit"), fr)
+		}
 		return true, true
 	case "fmt.Sprintf", "fmt.Sprint", "fmt.Sprintln", "strings.TrimSpace":
 		fr.vals[in] = AV{k: 'S'}
@@ -205,6 +212,9 @@ func (x *Exec) modelCLI(a *activation, b *ssa.BasicBlock, i int, in *ssa.Call, c
 	}
 	if callee.Pkg == x.c.SCLI {
 		return false, false // helpers of package main: inlined by the caller
+	}
+	if callee.Pkg == nil && callee.Synthetic != "" && callee.Blocks != nil {
+		return false, false // method-value / method-expression wrappers: looked through
 	}
 	if callee.Pkg == x.c.SLib {
 		x.gap("library call without a command-line model: "+name, in.Pos())
@@ -270,10 +280,17 @@ func ruleJpgoAbs(c *Ctx) *RuleResult {
 		notes  []string
 	}
 	var paths []pathRes
-	x.run(run, nil, newHeap(), pathInfo{}, func(rets []AV, h *Heap, p pathInfo, fin *frame) {
-		if len(rets) == 1 {
-			paths = append(paths, pathRes{rets[0], p.notes})
-		}
+	// the whole program: main with everything it calls in package main inlined;
+	// a path ends at os.Exit(status) or when main returns (status 0)
+	entry := c.SCLI.Func("main")
+	if entry == nil {
+		lost("cmd/jpgo: main not found")
+	}
+	x.onExit = func(status AV, h *Heap, p pathInfo) {
+		paths = append(paths, pathRes{status, p.notes})
+	}
+	x.run(entry, nil, newHeap(), pathInfo{}, func(rets []AV, h *Heap, p pathInfo, fin *frame) {
+		paths = append(paths, pathRes{AV{k: 'N', nk: true, n: 0}, p.notes})
 	})
 	pos := c.pos(run.Pos())
 	nOK := 0
@@ -348,30 +365,6 @@ func ruleJpgoAbs(c *Ctx) *RuleResult {
 			if i >= 6 {
 				break
 			}
-		}
-	}
-	// main
-	if mainF := c.SCLI.Func("main"); mainF != nil {
-		r.Instances++
-		xm := c.newExec(UJSON, "jpgo main()")
-		xm.cli = true
-		var notes [][]string
-		xm.run(mainF, nil, newHeap(), pathInfo{}, func(rets []AV, h *Heap, p pathInfo, fin *frame) {
-			notes = append(notes, p.notes)
-		})
-		okMain := len(notes) > 0
-		for _, ns := range notes {
-			if len(ns) == 0 || ns[len(ns)-1] != "exit" {
-				okMain = false
-			}
-		}
-		if okMain {
-			r.ok("main-exits", c.pos(mainF.Pos()), "main", "every path through main ends in os.Exit with run()'s status")
-		} else {
-			r.viol("main-exits", c.pos(mainF.Pos()), "main", fmt.Sprintf("main can return without os.Exit(run()): %v", notes))
-		}
-		for g, p := range xm.gaps {
-			r.undecided("gap|"+g, c.pos(p), "main", g)
 		}
 	}
 	for g, p := range x.gaps {
